@@ -21,10 +21,15 @@
 /// Range::normalize / normalize_value: contract-only here (C13, Kani unit norm_k proves the real functions)
 uninterp spec fn norm_spec(enabled: bool, value: f64, range: Option<Range>) -> f32;
 // post-processing functions: contract-only here (C05 Kani unit simple_k proves structure and formulas on the real functions)
-#[verifier::external_body] fn convert_to_cartesian(p: &mut Point) { unimplemented!() }
-#[verifier::external_body] fn convert_to_spherical(p: &mut Point) { unimplemented!() }
-#[verifier::external_body] fn convert_intensity(p: &mut Point) { unimplemented!() }
-#[verifier::external_body] fn transform_point(p: &mut Point, rotation: &[f64; 9], translation: &Translation) { unimplemented!() }
+uninterp spec fn spec_to_cartesian(p: Point) -> Point;
+uninterp spec fn spec_to_spherical(p: Point) -> Point;
+uninterp spec fn spec_intensity_to_color(p: Point) -> Point;
+uninterp spec fn spec_transform(p: Point, rotation: [f64; 9], translation: Translation) -> Point;
+#[verifier::external_body] fn convert_to_cartesian(p: &mut Point) ensures *final(p) == spec_to_cartesian(*old(p)) { unimplemented!() }
+#[verifier::external_body] fn convert_to_spherical(p: &mut Point) ensures *final(p) == spec_to_spherical(*old(p)) { unimplemented!() }
+#[verifier::external_body] fn convert_intensity(p: &mut Point) ensures *final(p) == spec_intensity_to_color(*old(p)) { unimplemented!() }
+#[verifier::external_body] fn transform_point(p: &mut Point, rotation: &[f64; 9], translation: &Translation)
+    ensures *final(p) == spec_transform(*old(p), *rotation, *translation) { unimplemented!() }
 /// Vec::reserve / VecDeque::reserve with the C09 allocation bound as precondition: one iterator step may only reserve room for
 /// the points it has actually decoded from the input (`cap`), never an amount taken from an untrusted count in the file
 #[verifier::external_body]
@@ -39,7 +44,7 @@ fn shim_reserve_deque(additional: usize, cap: usize, v: &mut VecDeque<Point>)
 { unimplemented!() }
 #[verifier::external_body]
 fn shim_move_all(buffer: &mut Vec<Point>, points: &mut VecDeque<Point>)
-    ensures final(buffer)@.len() == 0, final(points)@.len() == old(points)@.len() + old(buffer)@.len()
+    ensures final(buffer)@.len() == 0, final(points)@ =~= old(points)@ + old(buffer)@
 { unimplemented!() }
 
 // ---- the documented view of a raw point (C05), written from the property statement ----------------
@@ -110,6 +115,23 @@ impl<'a> PointCloudReaderSimple<'a> {
         &&& Self::idx_ok(ix.cartesian_invalid, n) && Self::idx_ok(ix.spherical_invalid, n) && Self::idx_ok(ix.color_invalid, n)
         &&& Self::idx_ok(ix.intensity, n) && Self::idx_ok(ix.intensity_invalid, n) && Self::idx_ok(ix.row, n) && Self::idx_ok(ix.column, n)
     }
+    /// C05: the documented post-processing of one decoded point: every option switch applies its own conversion, to every point,
+    /// in the documented order (spherical -> Cartesian, Cartesian -> spherical, intensity -> colour, pose)
+    spec fn post(&self, p: Point) -> Point {
+        let a = if self.s2c { spec_to_cartesian(p) } else { p };
+        let b = if self.c2s { spec_to_spherical(a) } else { a };
+        let c = if self.i2c { spec_intensity_to_color(b) } else { b };
+        if self.transform { spec_transform(c, self.rotation, self.translation) } else { c }
+    }
+    /// what a refill step hands out (r) and keeps (rest) for the decoded points `raw`
+    spec fn delivered(&self, raw: Seq<Point>, r: Option<Result<Point>>, rest: Seq<Point>) -> bool {
+        &&& r == Some(Ok::<Point, Error>(self.post(raw[0])))
+        &&& rest.len() == raw.len() - 1
+        &&& forall|j: int| 0 <= j < rest.len() ==> rest[j] == self.post(#[trigger] raw[j + 1])
+    }
+    spec fn same_opts(&self, o: &Self) -> bool {
+        self.s2c == o.s2c && self.c2s == o.c2s && self.i2c == o.i2c && self.transform == o.transform && self.rotation == o.rotation && self.translation == o.translation
+    }
     spec fn wf(&self) -> bool {
         &&& self.queue_reader.wf2() && !all_zero_width(self.queue_reader.pc.prototype@)
         &&& self.pc == self.queue_reader.pc
@@ -129,7 +151,7 @@ impl<'a> PointCloudReaderSimple<'a> {
         requires old(self).queue_reader.wf2(), old(self).pc == old(self).queue_reader.pc, old(self).indices_ok(),
         ensures final(self).queue_reader.wf2(), final(self).pc == old(self).pc, final(self).indices == old(self).indices,
             final(self).queue_reader.pc == old(self).queue_reader.pc, final(self).queue_reader.reader == old(self).queue_reader.reader,
-            final(self).buffer == old(self).buffer, final(self).points == old(self).points, final(self).read == old(self).read,
+            final(self).buffer == old(self).buffer, final(self).points == old(self).points, final(self).read == old(self).read, final(self).same_opts(old(self)),
             match r {
                 // the documented view of the raw values at the front of the queues
                 Ok(p) => p == old(self).view_point(old(self).front()) && old(self).states_ok(old(self).front())
@@ -159,7 +181,7 @@ impl<'a> PointCloudReaderSimple<'a> {
 //@rw for p in self\.buffer\.drain\(\.\.\) \{\s*self\.points\.push_back\(p\);\s*\} ==> shim_move_all(&mut self.buffer, &mut self.points);
 //@sig
         requires old(self).wf(),
-        ensures final(self).pc == old(self).pc,
+        ensures final(self).pc == old(self).pc, final(self).same_opts(old(self)),
             !(r matches Some(Err(_))) ==> final(self).wf(),
             match r {
                 // C05/C09: never more points than the declared record count
@@ -167,35 +189,84 @@ impl<'a> PointCloudReaderSimple<'a> {
                 Some(Ok(_)) => old(self).read < old(self).pc.records && final(self).read == old(self).read + 1,
                 Some(Err(_)) => final(self).read == old(self).read,
             },
+            // C05: points already decoded are handed out in order, unchanged
+            (old(self).read < old(self).pc.records && old(self).points@.len() > 0) ==>
+                r == Some(Ok::<Point, Error>(old(self).points@[0])) && final(self).points@ =~= old(self).points@.subrange(1, old(self).points@.len() as int),
+            // C05: a refill decodes k >= 1 points `raw` (each one the result of pop_point, i.e. the documented view of the raw values), applies the
+            // documented post-processing to EVERY one of them, hands out the first and keeps the others in order
+            (old(self).read < old(self).pc.records && old(self).points@.len() == 0 && r matches Some(Ok(_))) ==>
+                exists|raw: Seq<Point>| raw.len() >= 1 && #[trigger] old(self).delivered(raw, r, final(self).points@),
 //@loop 0 head hdr=while self\.queue_reader\.available\(\) < 1
             invariant
                 self.queue_reader.wf2(), !all_zero_width(self.queue_reader.pc.prototype@), self.pc == self.queue_reader.pc, self.pc == old(self).pc,
                 self.indices == old(self).indices, self.indices_ok(), self.buffer@.len() == 0, self.points@ == old(self).points@, self.read == old(self).read,
-                self.read < self.pc.records,
+                self.read < self.pc.records, self.same_opts(old(self)), old(self).points@.len() == 0,
             // every refill consumes input; the cursor is bounded by the logical file size (C09)
             decreases self.queue_reader.reader.log_file_size + 8 - self.queue_reader.reader.offset,
+//@loop 1 before
+        let ghost mut popped: Seq<Point> = Seq::empty();
 //@loop 1 head hdr=for _k in it: 0\.\.available
             invariant
                 self.queue_reader.wf2(), !all_zero_width(self.queue_reader.pc.prototype@), self.pc == self.queue_reader.pc, self.pc == old(self).pc,
                 self.indices == old(self).indices, self.indices_ok(), self.points@ == old(self).points@, self.read == old(self).read,
-                self.read < self.pc.records, available >= 1,
+                self.read < self.pc.records, available >= 1, self.same_opts(old(self)), old(self).points@.len() == 0,
                 self.buffer@.len() == it.index@,
+                // the buffer holds exactly what pop_point returned, in order
+                self.buffer@ =~= popped,
+//@loop 1 body_end
+            proof { popped = popped.push(p); }
 //@loop 1 after
         let ghost mid = *self;
 //@loop 2 head
                 invariant it.snapshot@.end == self.buffer@.len(), self.buffer@.len() == mid.buffer@.len(), self.queue_reader == mid.queue_reader,
-                    self.pc == mid.pc, self.indices == mid.indices, self.points@ == mid.points@, self.read == mid.read,
+                    self.pc == mid.pc, self.indices == mid.indices, self.points@ == mid.points@, self.read == mid.read, self.same_opts(&mid),
+                    forall|j: int| 0 <= j < it.index@ ==> self.buffer@[j] == spec_to_cartesian(mid.buffer@[j]),
+                    forall|j: int| it.index@ <= j < self.buffer@.len() ==> self.buffer@[j] == mid.buffer@[j],
+//@loop 3 before
+            let ghost mid2 = *self;
 //@loop 3 head
                 invariant it.snapshot@.end == self.buffer@.len(), self.buffer@.len() == mid.buffer@.len(), self.queue_reader == mid.queue_reader,
-                    self.pc == mid.pc, self.indices == mid.indices, self.points@ == mid.points@, self.read == mid.read,
+                    self.pc == mid.pc, self.indices == mid.indices, self.points@ == mid.points@, self.read == mid.read, self.same_opts(&mid),
+                    forall|j: int| 0 <= j < it.index@ ==> self.buffer@[j] == spec_to_spherical(mid2.buffer@[j]),
+                    forall|j: int| it.index@ <= j < self.buffer@.len() ==> self.buffer@[j] == mid2.buffer@[j],
+//@loop 4 before
+            let ghost mid3 = *self;
 //@loop 4 head
                 invariant it.snapshot@.end == self.buffer@.len(), self.buffer@.len() == mid.buffer@.len(), self.queue_reader == mid.queue_reader,
-                    self.pc == mid.pc, self.indices == mid.indices, self.points@ == mid.points@, self.read == mid.read,
+                    self.pc == mid.pc, self.indices == mid.indices, self.points@ == mid.points@, self.read == mid.read, self.same_opts(&mid),
+                    forall|j: int| 0 <= j < it.index@ ==> self.buffer@[j] == spec_intensity_to_color(mid3.buffer@[j]),
+                    forall|j: int| it.index@ <= j < self.buffer@.len() ==> self.buffer@[j] == mid3.buffer@[j],
+//@loop 5 before
+            let ghost mid4 = *self;
 //@loop 5 head
                 invariant it.snapshot@.end == self.buffer@.len(), self.buffer@.len() == mid.buffer@.len(), self.queue_reader == mid.queue_reader,
-                    self.pc == mid.pc, self.indices == mid.indices, self.points@ == mid.points@, self.read == mid.read,
+                    self.pc == mid.pc, self.indices == mid.indices, self.points@ == mid.points@, self.read == mid.read, self.same_opts(&mid),
+                    forall|j: int| 0 <= j < it.index@ ==> self.buffer@[j] == spec_transform(mid4.buffer@[j], mid.rotation, mid.translation),
+                    forall|j: int| it.index@ <= j < self.buffer@.len() ==> self.buffer@[j] == mid4.buffer@[j],
+//@stmt 0 before if self\.c2s
+        let ghost b1 = self.buffer@;
+        proof { assert forall|j: int| 0 <= j < popped.len() implies b1[j] == (if mid.s2c { spec_to_cartesian(#[trigger] popped[j]) } else { popped[j] }) by {} }
+//@stmt 0 before if self\.i2c
+        let ghost b2 = self.buffer@;
+        proof { assert forall|j: int| 0 <= j < popped.len() implies b2[j] == (if mid.c2s { spec_to_spherical(#[trigger] b1[j]) } else { b1[j] }) by {} }
+//@stmt 0 before if self\.transform
+        let ghost b3 = self.buffer@;
+        proof { assert forall|j: int| 0 <= j < popped.len() implies b3[j] == (if mid.i2c { spec_intensity_to_color(#[trigger] b2[j]) } else { b2[j] }) by {} }
+//@call shim_reserve_deque 0 before
+        let ghost fin = self.buffer@;
+        proof {
+            assert forall|j: int| 0 <= j < popped.len() implies fin[j] == (if mid.transform { spec_transform(#[trigger] b3[j], mid.rotation, mid.translation) } else { b3[j] }) by {}
+            // C05: every decoded point went through the documented pipeline
+            assert forall|j: int| 0 <= j < popped.len() implies fin[j] == #[trigger] old(self).post(popped[j]) by {
+                assert(b1[j] == (if mid.s2c { spec_to_cartesian(popped[j]) } else { popped[j] }));
+                assert(b2[j] == (if mid.c2s { spec_to_spherical(b1[j]) } else { b1[j] }));
+                assert(b3[j] == (if mid.i2c { spec_intensity_to_color(b2[j]) } else { b2[j] }));
+            }
+        }
 //@stmt 0 before Some\(Error::internal\(
             // C05: the simple iterator fails only where the raw iterator (advance / pop) fails: this branch must be unreachable
             proof { assert(false); }
+//@stmt 1 before Some\(Ok\(point\)\)
+            proof { assert(old(self).delivered(popped, Some(Ok::<Point, Error>(point)), self.points@)); }
 //@endfn
 }
